@@ -113,6 +113,8 @@ B3 = {
     "C17": [dict(gen="Gen_Batch", quick="BatchSizes = {2, 3, 8, 16}", thorough="BatchSizes = {2, 3, 5, 8, 16, 32, 64}", props=["P_C17", "P_C16"])],
     "C18": [dict(gen="Gen_Settings", quick="MaxSettings = 3\n  AllOrders = FALSE\n  Full = FALSE", thorough="MaxSettings = 3\n  AllOrders = TRUE\n  Full = TRUE", props=["P_C18", "P_C10"])],
     "C06": [dict(gen="Gen_Canary", quick="Full = FALSE", thorough="Full = TRUE", props=["P_C06", "P_C08", "P_C14"])],
+    # the promotion decision of one real EDS reconcile at every age / restart / pause / validation / failure combination
+    "C05": [dict(gen="Gen_Promotion", quick="Full = FALSE", thorough="Full = TRUE", props=["P_C05", "P_C08"])],
     "C09": [dict(gen="Gen_Limits", quick='MaxN = 4\n  Reps = 1\n  MaxUs = {"1"}\n  MaxSFs = {"0"}\n  Variants <- VariantsQuick',
                  thorough='MaxN = 4\n  Reps = 1\n  MaxUs = {"1", "50%"}\n  MaxSFs = {"0"}\n  Variants <- VariantsThorough', props=["P_C09", "P_C08"])],
     "C08": [dict(gen="Gen_Canary", quick="Full = FALSE", thorough="Full = TRUE", props=["P_C08"]),
